@@ -208,8 +208,14 @@ StepRefines == [][hist' # <<>> =>
                     a.gr = [s \in Slots |-> AbsGraph(impl'[s])] /\ a.live = live']_ivars
 
 (* witnesses: TLC must violate them *)
-W_SwapMiddle == ~(\E s \in live : Len(impl[s].seq) >= 2 /\ hist # <<>> /\ hist[Len(hist)].op = "rmnode"
-                     /\ \E p \in DOMAIN impl[s].seq : \E q \in DOMAIN impl[s].seq : p < q /\ impl[s].adj[p] # {} /\ q \in impl[s].adj[p])
+(* a node in the middle of a graph with edges was removed (a copy taken before still shows where it was) *)
+W_Relocated  == ~(/\ hist # <<>> /\ hist[Len(hist)].op = "rmnode"
+                  /\ \E s, t \in live : LET x == hist[Len(hist)].x IN
+                        /\ s # t /\ x \in DOMAIN impl[t].idx /\ x \notin DOMAIN impl[s].idx
+                        /\ impl[t].idx[x][1] < Len(impl[t].seq)
+                        /\ AbsGraph(impl[s]) = Abs!RemoveNode(AbsGraph(impl[t]), x)
+                        /\ AbsGraph(impl[s]).edges # {})
+(* two graphs that are equal as node/edge sets are laid out differently *)
 W_Reordered  == ~(\E s, t \in live : s # t /\ AbsGraph(impl[s]) = AbsGraph(impl[t]) /\ impl[s].seq # impl[t].seq
                      /\ Len(impl[s].seq) >= 3)
 =============================================================================
